@@ -2245,10 +2245,10 @@ struct XmlReader<'i, R: XmlRead<'i>, E: EntityResolver = PredefinedEntityResolve
 }
 
 impl<'i, R: XmlRead<'i>, E: EntityResolver> XmlReader<'i, R, E> {
-    fn new(mut reader: R, entity_resolver: E) -> Self {
+    fn new(mut reader: R, mut entity_resolver: E) -> Self {
         // Lookahead by one event immediately, so we do not need to check in the
         // loop if we need lookahead or not
-        let lookahead = reader.next();
+        let lookahead = Self::read_lookahead(&mut reader, &mut entity_resolver);
 
         Self {
             reader,
@@ -2263,9 +2263,28 @@ impl<'i, R: XmlRead<'i>, E: EntityResolver> XmlReader<'i, R, E> {
     }
 
     /// Read next event and put it in lookahead, return the current lookahead
+    /// Reads the next event for the lookahead. DOCTYPE declarations are processed
+    /// here and never become a lookahead: text merging in `drain_text` looks only
+    /// one event ahead, so an event that is dropped later must not separate two
+    /// text events (`x<!DOCTYPE y>z` would produce two consequent `DeEvent::Text`).
+    fn read_lookahead(
+        reader: &mut R,
+        entity_resolver: &mut E,
+    ) -> Result<PayloadEvent<'i>, DeError> {
+        loop {
+            match reader.next()? {
+                PayloadEvent::DocType(e) => entity_resolver
+                    .capture(e)
+                    .map_err(|err| DeError::Custom(format!("cannot parse DTD: {}", err)))?,
+                e => return Ok(e),
+            }
+        }
+    }
+
     #[inline(always)]
     fn next_impl(&mut self) -> Result<PayloadEvent<'i>, DeError> {
-        replace(&mut self.lookahead, self.reader.next())
+        let next = Self::read_lookahead(&mut self.reader, &mut self.entity_resolver);
+        replace(&mut self.lookahead, next)
     }
 
     /// Returns `true` when next event is not a text event in any form.
